@@ -33,19 +33,24 @@ inductive Op where
   | cache (limit : Option Nat)
 deriving Repr, Inhabited
 
+/-- one operation on the router (over any outermost matcher) -/
+def Op.runG (O : MOps) : Op → RouterG O → RouterG O
+  | .insert r, S => RouterG.insert O r S
+  | .remove id, S => (RouterG.remove O id S).1
+  | .batchRemove ids, S => RouterG.batchRemove O ids S
+  | .changeSet a u d, S => RouterG.applyChangeSet O a u d S
+  | .cache _, S => S
+
+def runOpsG (O : MOps) (h : List Op) (S : RouterG O) : RouterG O := h.foldl (fun S op => op.runG O S) S
+
 section
 variable (E : Env)
 
 /-- one operation on the router -/
-def Op.run : Op → Router E → Router E
-  | .insert r, S => S.insert E r
-  | .remove id, S => (S.remove E id).1
-  | .batchRemove ids, S => S.batchRemove E ids
-  | .changeSet a u d, S => S.applyChangeSet E a u d
-  | .cache _, S => S
+@[reducible] def Op.run (op : Op) (S : Router E) : Router E := Op.runG (towerOps E) op S
 
 /-- `run h`: the router after the history `h` -/
-def runOps (h : List Op) (S : Router E) : Router E := h.foldl (fun S op => op.run E S) S
+@[reducible] def runOps (h : List Op) (S : Router E) : Router E := runOpsG (towerOps E) h S
 
 end
 
